@@ -46,6 +46,9 @@ fn tag_of(v: &Value) -> &str {
 }
 
 impl Ctx {
+    fn clone_for_wire(&self) -> Ctx {
+        self.clone()
+    }
     /// CBOR bytes of a leaf atom.
     pub fn atom_cbor(&self, atom: &Value) -> R<Vec<u8>> {
         match tag_of(atom) {
@@ -61,6 +64,11 @@ impl Ctx {
             "uint" => Ok(w::uint(atom[1].as_u64().unwrap())),
             "int" => Ok(w::int(atom[1].as_i64().unwrap())),
             "bool" => Ok(w::simple(if atom[1].as_bool().unwrap() { 21 } else { 20 })),
+            "cborof" => {
+                // a leaf whose value is the CBOR item denoted by a wire term
+                let mut c = self.clone_for_wire();
+                c.wire(&atom[1])
+            }
             "cborhex" => hex::decode(atom[1].as_str().unwrap()).map_err(|e| EvalError(e.to_string())),
             // opaque values produced by the library (salt, signature, sealed message,
             // SSKR share...): bound to their real bytes at first sight
@@ -121,15 +129,15 @@ impl Ctx {
                 for p in t[1].as_array().unwrap() {
                     pairs.push((self.wire(&p[0])?, self.wire(&p[1])?));
                 }
-                Ok(w::map_raw(&pairs))
+                Ok(w::map_sorted(&pairs))
             }
             "bytes" => {
                 let mut d = self.digest(&t[1])?.to_vec();
-                let delta = t[2].as_i64().unwrap_or(0);
-                if delta > 0 {
-                    d.extend(std::iter::repeat(0xAA).take(delta as usize));
-                } else if delta < 0 {
-                    d.truncate(32 - (-delta) as usize);
+                // 0: exact, 1: one byte appended, 2: one byte dropped
+                match t[2].as_i64().unwrap_or(0) {
+                    1 => d.push(0xAA),
+                    2 => d.truncate(31),
+                    _ => {}
                 }
                 Ok(w::bytes(&d))
             }
@@ -182,10 +190,24 @@ impl Ctx {
                 // <<"encmsg", D, key, nonce, Wplain, auth, extra>>: random nonce, so the
                 // bytes are those bound when the element was first seen
                 let id = key_of(&t[3]);
-                match self.bind.get(&format!("enc:{}", id)) {
-                    Some(b) => Ok(b.clone()),
-                    None => err(format!("opaque: unbound ciphertext {}", id)),
+                let mut b = match self.bind.get(&format!("enc:{}", id)) {
+                    Some(b) => b.clone(),
+                    None => return err(format!("opaque: unbound ciphertext {}", id)),
+                };
+                // the bound item is the 4-element array [ciphertext, nonce, tag, aad]
+                if tag_of(&t[1]) == "nodigest" {
+                    if b[0] != 0x84 {
+                        return err("encmsg: unexpected container");
+                    }
+                    b[0] = 0x83;
+                    let n = b.len();
+                    b.truncate(n - 38); // aad = bytes(36) holding #6.40001(h'32 bytes')
                 }
+                if t[6].as_u64().unwrap_or(0) > 0 {
+                    b[0] += 1;
+                    b.extend_from_slice(&w::bytes(&[1, 2, 3]));
+                }
+                Ok(b)
             }
             "compmsg" => {
                 // <<"compmsg", D, Wplain, state, extra>>: DEFLATE is a trusted primitive,
@@ -193,14 +215,55 @@ impl Ctx {
                 if t[3].as_str() != Some("ok") {
                     return err("opaque: corrupted compressed payload");
                 }
-                let d = self.digest(&t[1])?;
                 let plain = self.wire(&t[2])?;
-                let c = bc_components::Compressed::from_uncompressed_data(
-                    plain,
-                    Some(bc_components::Digest::from_data(d)),
-                );
+                let dg = if tag_of(&t[1]) == "nodigest" { None } else { Some(bc_components::Digest::from_data(self.digest(&t[1])?)) };
+                let c = bc_components::Compressed::from_uncompressed_data(plain, dg);
                 use dcbor::prelude::*;
-                Ok(c.untagged_cbor().to_cbor_data())
+                let mut b = c.untagged_cbor().to_cbor_data();
+                if t[4].as_u64().unwrap_or(0) > 0 {
+                    b[0] += 1;
+                    b.extend_from_slice(&w::bytes(&[1, 2, 3]));
+                }
+                Ok(b)
+            }
+            "other" => Ok(match t[1].as_str().unwrap_or("") {
+                "float" => w::f16_bits(0x3e00),
+                "text" => w::text("x"),
+                "negint" => w::nint(-1),
+                "bool" => w::simple(21),
+                _ => return err("other"),
+            }),
+            "quirk" => {
+                // a well-formed but non-deterministic encoding of the item
+                let b = self.wire(&t[2])?;
+                let q = t[1].as_str().unwrap_or("");
+                let major = b[0] >> 5;
+                let ai = b[0] & 31;
+                let (n, hl): (u64, usize) = match ai {
+                    0..=23 => (ai as u64, 1),
+                    24 => (b[1] as u64, 2),
+                    25 => (u16::from_be_bytes([b[1], b[2]]) as u64, 3),
+                    26 => (u32::from_be_bytes([b[1], b[2], b[3], b[4]]) as u64, 5),
+                    27 => (u64::from_be_bytes([b[1], b[2], b[3], b[4], b[5], b[6], b[7], b[8]]), 9),
+                    _ => return err("quirk: head"),
+                };
+                let mut out = vec![];
+                if q == "indefinite" && (major == 4 || major == 5) {
+                    out.push((major << 5) | 31);
+                    out.extend_from_slice(&b[hl..]);
+                    out.push(0xff);
+                } else if q == "indefinite" && (major == 2 || major == 3) {
+                    out.push((major << 5) | 31);
+                    out.extend_from_slice(&b); // one definite chunk
+                    out.push(0xff);
+                } else if major == 7 {
+                    // simple / float: encode a half float as a single (longer) float
+                    return Ok(w::f32_bits(0x3fc00000));
+                } else {
+                    w::head_nonminimal(major, n, &mut out);
+                    out.extend_from_slice(&b[hl..]);
+                }
+                Ok(out)
             }
             "rawhex" => hex::decode(t[1].as_str().unwrap()).map_err(|e| EvalError(e.to_string())),
             other => err(format!("bad wire term tag {:?} in {}", other, t)),
